@@ -35,6 +35,7 @@ import (
 	"github.com/influxdata/influxdb"
 	"github.com/influxdata/influxdb/models"
 	"github.com/influxdata/influxdb/prometheus"
+	originql "github.com/influxdata/influxql"
 	"github.com/openGemini/openGemini/engine/executor"
 	"github.com/openGemini/openGemini/engine/op"
 	"github.com/openGemini/openGemini/lib/bufferpool"
@@ -631,6 +632,12 @@ func (h *Handler) servePromBaseQuery(w http.ResponseWriter, r *http.Request, use
 
 	// TODO support instant query
 	if h.Config.ResultCache.Enabled && promCommand.Evaluation == nil && !async && !isExplain {
+		// a cached answer is served without going through execQuery (and its authorization): the cache key names
+		// no user, so whoever asks must be allowed to read the database the answer comes from
+		if h.Config.AuthEnabled && (user == nil || !user.AuthorizeDatabase(originql.ReadPrivilege, db)) {
+			respondError(w, &apiError{errorForbidden, fmt.Errorf("user is not authorized to read from database %q", db)})
+			return
+		}
 		reqInfo := &RequestInfo{
 			h: h,
 			w: w,
